@@ -403,6 +403,64 @@ def gen_ev2(ctx, thr, symcases, ty="d"):
     return lines
 
 
+def eig3_float(A):
+    """rough eigenvalues of a symmetric 3x3 (floats; only used to aim kernel inputs at realistic values)"""
+    q = (A[0][0] + A[1][1] + A[2][2]) / 3.0
+    p1 = A[0][1] ** 2 + A[0][2] ** 2 + A[1][2] ** 2
+    p2 = sum((A[i][i] - q) ** 2 for i in range(3)) + 2 * p1
+    if p2 <= 0:
+        return [q, q, q]
+    p = math.sqrt(p2 / 6.0)
+    B = [[(A[i][j] - (q if i == j else 0.0)) / p for j in range(3)] for i in range(3)]
+    det = (B[0][0] * (B[1][1] * B[2][2] - B[1][2] * B[2][1]) - B[0][1] * (B[1][0] * B[2][2] - B[1][2] * B[2][0])
+           + B[0][2] * (B[1][0] * B[2][1] - B[1][1] * B[2][0]))
+    r = max(-1.0, min(1.0, det / 2.0))
+    phi = math.acos(r) / 3.0
+    e2 = q + 2 * p * math.cos(phi); e0 = q + 2 * p * math.cos(phi + 2 * math.pi / 3)
+    return sorted([e0, 3 * q - e0 - e2, e2])
+
+def gen_k3(ctx, symcases):
+    """bit-exact stream for the 3x3 eigenvector kernels Impl::eig0 / orthoComp / eig1 (binary64), aimed at their case splits:
+    which row pair has the largest cross product (all symmetric permutations of structured matrices), |e0| vs |e1| in
+    orthoComp (axis-aligned vectors, ties), the four branches and the M = 0 exit of eig1"""
+    rng = ctx.rng("k3")
+    lines = []
+    mats = [c["A"] for c in symcases if c["ty"] == "d" and c["n"] == 3 and c["k"] == 0]
+    rng.shuffle(mats)
+    mats = mats[: (120 if ctx.quick else 1500)]
+    hx9 = lambda A: " ".join(d2h(x) for r in A for x in r)
+    def unit(v):
+        n = math.sqrt(sum(x * x for x in v)) or 1.0
+        return [x / n for x in v]
+    s2 = math.sqrt(0.5)
+    vecs = [[1.0, 0.0, 0.0], [0.0, 1.0, 0.0], [0.0, 0.0, 1.0], [-1.0, 0.0, 0.0], [0.0, -1.0, 0.0], [s2, s2, 0.0], [s2, -s2, 0.0],
+            [s2, 0.0, s2], [0.0, s2, s2], [0.6, 0.8, 0.0], [0.8, 0.6, 0.0], [0.0, 0.0, 0.0], [1e-200, 0.0, 1.0], [1.0, 1e-170, 0.0],
+            [2.0, 0.0, 0.0], [float("inf"), 0.0, 0.0], [float("nan"), 1.0, 0.0]]
+    for v in vecs:
+        lines.append("k3 ortho %s" % " ".join(d2h(x) for x in v))
+    for _ in range(60 if ctx.quick else 800):
+        v = unit([rng.choice([0.0, 1.0, -1.0, rng.gauss(0, 1), 1e-9 * rng.gauss(0, 1)]) for _ in range(3)])
+        lines.append("k3 ortho %s" % " ".join(d2h(x) for x in v))
+    for A in mats:
+        ev = eig3_float(A)
+        cands = ev + [A[0][0], A[1][1], A[2][2], rng.uniform(-3, 3)]
+        for l in (cands if not ctx.quick else [ev[0], ev[2], rng.choice(cands)]):
+            lines.append("k3 eig0 %s %s" % (hx9(A), d2h(l)))
+        # eig1: evec0 = (approximate) eigenvector for an extreme eigenvalue by the largest cross product, or an axis / random unit vector
+        for l0, l1 in ((ev[2], ev[1]), (ev[0], ev[1])):
+            rows = [[A[i][j] - (l0 if i == j else 0.0) for j in range(3)] for i in range(3)]
+            cr = lambda a, b: [a[1] * b[2] - a[2] * b[1], a[2] * b[0] - a[0] * b[2], a[0] * b[1] - a[1] * b[0]]
+            best = max((cr(rows[0], rows[1]), cr(rows[0], rows[2]), cr(rows[1], rows[2])), key=lambda v: sum(x * x for x in v))
+            for e in (unit(best), rng.choice(vecs[:11])):
+                lines.append("k3 eig1 %s %s %s" % (hx9(A), " ".join(d2h(x) for x in e), d2h(l1)))
+    # multiples of the identity: M = 0 exit of eig1
+    for c in (1.0, -2.5, 0.0):
+        A = [[c if i == j else 0.0 for j in range(3)] for i in range(3)]
+        for e in vecs[:6]:
+            lines.append("k3 eig1 %s %s %s" % (hx9(A), " ".join(d2h(x) for x in e), d2h(c)))
+    return lines
+
+
 def gen_ho(ctx):
     rng = ctx.rng("ho")
     lines = []
@@ -784,7 +842,14 @@ def build(ctx, san_mock=True):
     return V.cxx_many(ctx, jobs)
 
 
+def params_hook(ctx):
+    """regenerate coq/Params_gen.v from ctx.repo (job characters, workspace formulas, 2x2/3x3 variants: tools/params.d/C08.py)"""
+    import sys
+    V.sh([sys.executable, os.path.join(V.VERIF, "tools", "extract_params.py"), ctx.repo], check=True)
+
+
 def run(ctx):
+    ctx.params_hook = params_hook
     V.coq_stage(ctx)
     thr, thrsrc = thresholds(ctx)
     ctx.notes.append("2x2 thresholds re-read from %s/dune/common/fmatrixev.hh: %r (%r)" % (ctx.repo, thr, thrsrc))
@@ -803,16 +868,19 @@ def run(ctx):
     e1 = ["e1 %s" % d2h(c["A"][0][0]) for c in symc if c["ty"] == "d" and c["n"] == 1]
     e1_idx = [i for i, c in enumerate(symc) if c["ty"] == "d" and c["n"] == 1]
     ho = gen_ho(ctx)
+    k3 = gen_k3(ctx, symc)
     nonsym = cnonsym + gen_nonsym(ctx)
-    ctx.log("generated: sym=%d ev2=%d ho=%d nonsym=%d" % (len(symc), len(ev2), len(ho), len(nonsym)))
+    ctx.log("generated: sym=%d ev2=%d k3=%d ho=%d nonsym=%d" % (len(symc), len(ev2), len(k3), len(ho), len(nonsym)))
 
     sym_lines = [sym_case_line(c) for c in symc]
     ns_lines = [nonsym_case_line(c) for c in nonsym]
-    mo = V.run_cases(ctx, [model], ev2 + e1 + ho, tag="model", timeout=900)
-    io = V.run_cases(ctx, [impl], ev2 + sym_lines + ns_lines, tag="impl", timeout=120 if ctx.quick else 600)
+    mo = V.run_cases(ctx, [model], ev2 + e1 + ho + k3, tag="model", timeout=900)
+    io = V.run_cases(ctx, [impl], ev2 + sym_lines + ns_lines + k3, tag="impl", timeout=120 if ctx.quick else 600)
     ko = V.run_cases(ctx, [impl_mock], ho, tag="mock", timeout=120 if ctx.quick else 600, env=san_env)
-    m_ev2, m_e1, m_ho = mo[:len(ev2)], mo[len(ev2):len(ev2) + len(e1)], mo[len(ev2) + len(e1):]
-    i_ev2, i_sym, i_ns = io[:len(ev2)], io[len(ev2):len(ev2) + len(symc)], io[len(ev2) + len(symc):]
+    m_ev2, m_e1, m_ho = mo[:len(ev2)], mo[len(ev2):len(ev2) + len(e1)], mo[len(ev2) + len(e1):len(ev2) + len(e1) + len(ho)]
+    m_k3 = mo[len(ev2) + len(e1) + len(ho):]
+    i_ev2, i_sym = io[:len(ev2)], io[len(ev2):len(ev2) + len(symc)]
+    i_ns, i_k3 = io[len(ev2) + len(symc):len(ev2) + len(symc) + len(nonsym)], io[len(ev2) + len(symc) + len(nonsym):]
 
     stats = {"ev2_disagree": 0, "ho_disagree": 0, "sym_rejections": 0, "nonsym_rejections": 0, "ho_oracle_rejections": 0,
              "ev2_identity_branch": 0, "ev2_matherror": 0, "ev2_symmetric": 0}
@@ -844,6 +912,17 @@ def run(ctx):
                 else:
                     ctx.violation("corr:C08/ev2", {"broken": "corr:C08/ev2 (2x2 %s path no longer bit-identical to the Flocq instance of the model)" % ("double" if ty == "d" else "float"),
                                                    "case": case, "impl": a, "model": b, "oracle": "accepts impl output or not applicable"}, found_input=False)
+    # ---- k3: the 3x3 eigenvector kernels, bit-exact
+    k3_kinds = {}
+    for case, a, b in zip(k3, i_k3, m_k3):
+        kern = case.split()[1]
+        k3_kinds[kern] = k3_kinds.get(kern, 0) + 1
+        if a != b:
+            stats["k3_disagree"] = stats.get("k3_disagree", 0) + 1
+            if stats["k3_disagree"] <= 4:
+                ctx.violation("corr:C08/k3:%s" % kern, {"broken": "corr:C08/k3 (Impl::%s no longer bit-identical to the binary64 instance of the model kernel)" % kern,
+                                                       "case": case, "impl": a, "model": b, "replay_cmd": "bin/check C08 --replay <this file>"}, found_input=False)
+    stats.setdefault("k3_disagree", 0)
     # ---- n = 1
     for k, idx in enumerate(e1_idx):
         got = " | ".join(i_sym[idx].split(" | ")[:2])
@@ -856,8 +935,11 @@ def run(ctx):
         reason = oracle_ho(case, a)
         alts = b.split(" || ")
         if a in alts:
-            if routine.startswith("dyn") and len(alts) == 2 and alts[0] != alts[1]:
-                nonsym_variant.add("current" if a == alts[0] else "repaired")
+            if routine.startswith("dyn") and len(alts) >= 2 and alts[0] != alts[1]:
+                nonsym_variant.add("pre-fix" if a == alts[0] else "repaired")
+            if routine.startswith("dyn") and len(alts) == 3 and a != alts[2]:
+                # the model instantiated with the constants re-read from the source must predict the source's behaviour
+                ctx.violation("corr:C08/ho:%s:params" % routine, {"broken": "corr:C08/ho (Params_gen constants do not reproduce the call)", "case": case, "impl": a, "model_from_source_constants": alts[2]}, found_input=False)
         else:
             stats["ho_disagree"] += 1
             if reason is None and stats["ho_disagree"] <= 5:
@@ -892,7 +974,7 @@ def run(ctx):
         len(set(l for l, c in zip(sym_lines, symc) if c["n"] > 1 and any(c["A"][i][j] != 0 for i in range(c["n"]) for j in range(c["n"]) if i != j))) + \
         len(set(l for l, c in zip(ns_lines, nonsym) if c["n"] > 1))
     ctx.coverage.update({
-        "evaluations": len(ev2) + len(e1) + len(ho) + len(symc) + len(nonsym),
+        "evaluations": len(ev2) + len(e1) + len(ho) + len(symc) + len(nonsym) + len(k3),
         "distinct_nontrivial": nontriv,
         "rule": "ev2/ev2f: exhaustive symmetric 2x2 over an 8-value alphabet + seeded boundary-directed doubles and floats (threshold neighbourhoods, discriminant near 0/-thr, 2^k scalings, "
                 "specials), bit-exact vs the extracted Flocq model; ho: every routine x {double,float,long double} x n x info in {0,2,-1} with recording LAPACK stubs, exact vs the "
@@ -900,13 +982,13 @@ def run(ctx):
                 "diagonal, 2x2 near multiples of the identity, each also scaled by 2^k. non-trivial = 2x2 with at least two different entries / n>1 with a non-zero off-diagonal entry "
                 "/ every hand-over case; distinct = distinct case lines (total distinct: %d)" % distinct,
         "samples": [ev2[0], ev2[len(ev2) // 2], ho[0], ho[-1], sym_lines[len(sym_lines) // 3][:160], ns_lines[0]],
-        "streams": {"ev2_bit_exact_double": len(ev2d), "ev2_bit_exact_float": len(ev2) - len(ev2d), "e1": len(e1), "handover_exact": len(ho), "sym_TESTS": len(symc), "nonsym_TESTS": len(nonsym)},
+        "streams": {"ev2_bit_exact_double": len(ev2d), "ev2_bit_exact_float": len(ev2) - len(ev2d), "e1": len(e1), "handover_exact": len(ho), "k3_kernels_bit_exact": len(k3), "k3_by_kernel": k3_kinds, "sym_TESTS": len(symc), "nonsym_TESTS": len(nonsym)},
         "sym_kinds": kinds, "stats": stats,
         "nonsym_handover_variant_matched": sorted(nonsym_variant),
         "thresholds_from_source": {"values": thr, "source": thrsrc},
         "tolerances": {"n=1,2,LAPACK": "64*n*eps*||A||_inf (residual, trace, orthogonality, unit length, entry-point agreement)",
                        "n=3 closed form": "8*sqrt(eps)*||A||_inf", "nonsym": "|p(lambda)| <= 1e-9 sum|c_k| max(|lambda|,||A||)^k; residual 1024 n eps ||A|| |v|"},
-        "traces_validated_against_impl": len(ev2) + len(e1) + len(ho),
+        "traces_validated_against_impl": len(ev2) + len(e1) + len(ho) + len(k3),
         "tests_not_proofs": len(symc) + len(nonsym),
         "exhaustive": False,
     })
@@ -925,7 +1007,12 @@ def replay(ctx, path):
     impl, impl_mock = build(ctx)
     rc = 0
     print("case  :", case)
-    if op in ("ev2", "ev2f"):
+    if op == "k3":
+        model = V.build_model(ctx)
+        a = V.run_cases(ctx, [impl], [case], tag="rimpl", timeout=30)[0]
+        b = V.run_cases(ctx, [model], [case], tag="rmodel", timeout=60)[0]
+        print("impl  :", a); print("model :", b); rc = 1 if a != b else 0
+    elif op in ("ev2", "ev2f"):
         model = V.build_model(ctx)
         a = V.run_cases(ctx, [impl], [case], tag="rimpl", timeout=30)[0]
         b = V.run_cases(ctx, [model], [case], tag="rmodel", timeout=60)[0]
